@@ -1273,7 +1273,9 @@ class File(Value):
         return self.filesystem.exists(self.path)
 
     def remove(self) -> None:
-        return self.filesystem.remove(self.path)
+        self.filesystem.remove(self.path)
+        # Drop the cached hash so the next access hashes the (now missing) path.
+        self._hash = None
 
     def open(self, mode: str = "r", encoding: Optional[str] = None, **kwargs: Any) -> IO:
         """
@@ -1310,6 +1312,8 @@ class File(Value):
 
     def touch(self, time: tuple[int, int] | tuple[float, float] | None = None) -> None:
         self.filesystem.touch(self.path, time)
+        # The file may have been created or its mtime changed; rehash on next access.
+        self._hash = None
 
     def read(self, mode: str = "r", encoding: Optional[str] = None) -> str | bytes:
         with self.open(mode=mode, encoding=encoding) as infile:
@@ -1589,14 +1593,16 @@ class StagingFile(Staging[File]):
 
     def stage(self) -> File:
         if self.local.path == self.remote.path:
-            # No staging is needed.
+            # No staging is needed, but the hash may predate the file's last change.
+            self.local.update_hash()
             return self.local
 
         return self.remote.copy_to(self.local)
 
     def unstage(self) -> File:
         if self.local.path == self.remote.path:
-            # No staging is needed.
+            # No staging is needed, but the hash may predate the file's last change.
+            self.remote.update_hash()
             return self.remote
 
         return self.local.copy_to(self.remote)
@@ -1653,14 +1659,16 @@ class StagingDir(Staging[Dir]):
 
     def stage(self) -> Dir:
         if self.local.path == self.remote.path:
-            # No staging is needed.
+            # No staging is needed, but the hash may predate the file's last change.
+            self.local.update_hash()
             return self.local
 
         return self.remote.copy_to(self.local)
 
     def unstage(self) -> Dir:
         if self.local.path == self.remote.path:
-            # No staging is needed.
+            # No staging is needed, but the hash may predate the file's last change.
+            self.remote.update_hash()
             return self.remote
 
         return self.local.copy_to(self.remote)
